@@ -57,6 +57,10 @@
      G7  And / Or of one operand prints as the operand; of none as the empty text; GNil as `Nil`
                                                                   single_operand_not_read_back
      (repaired: a goal without arguments `go()`, zero_arity_goal_reads_back, zero_arity_rule_reads_back)
+   files:
+     F1  a line break after the sign of a negative number is a legal layout for the file reader, which
+         puts a space there: `p(-` / `5).` loads as p(- 5) with the atom `- 5`
+                                                                  break_after_minus_sign_changes_the_rule (Properties/C21closed.v)
    Not examined by a theorem: floats, quoted atoms, atoms and functors with other characters. *)
 From Coq Require Import String.
 From Suiron Require Import Model.Tokenizer Model.ParseRule Proofs.TokenizerProofs Proofs.GoalRoundtrip.
